@@ -22,8 +22,8 @@ PROPS = ["C01", "C02", "C03", "C04", "C05", "C06", "C07", "C08", "C09", "C10", "
 
 EXACT = "cx,rect,cxmix,cxshift,rectw,cxabut,cxsub,frames"
 ROUND = "aff-cx,aff-cxmix,aff-cxshift,aff-rect,aff-cxabut,aff-cxsub,lat"
-ALLF = EXACT + ",pinch,holefill," + ROUND      # "pinch" (many rings through one vertex) is exact too, but has no degenerate variants (kind deg)
-SHARED = "cx,rect,cxabut,cxsub,cxshift,cxmix,aff-cx,rectw,frames,aff-cxabut,frames,lat,pinch,holefill"      # weighted towards shared boundary segments
+ALLF = EXACT + ",pinch,holefill,teeth," + ROUND      # "pinch" (many rings through one vertex) is exact too, but has no degenerate variants (kind deg)
+SHARED = "cx,rect,cxabut,cxsub,cxshift,cxmix,aff-cx,rectw,frames,aff-cxabut,frames,lat,pinch,holefill,teeth"      # weighted towards shared boundary segments
 
 
 def ops(kind, fams, count, kmax=3, max_edges=120):
@@ -64,6 +64,7 @@ def plan(prop, tier):
                  [ops("five", ALLF, 300 if q else 3000, 3 if q else 4, 100 if q else 140)])],
         "C06": [("algebra", {"C06"}, "any", "release",
                  [ops("five", ALLF, 200 if q else 2000, 3 if q else 4, 100 if q else 140),
+                  ops("five", "teeth", 3000 if q else 20000, 3, 100),     # interlocking operands: cheap sessions, at volume
                   ops("far", ALLF, 120 if q else 1000, 3, 100),
                   ops("deg", EXACT, 60 if q else 300)])],
         "C07": [("representation", {"C07"}, "any", "release",
